@@ -123,7 +123,7 @@ theorem stepFacts {n : Nat} {vc : P → Score} {c : P} {a b r1 : Score} (hn : n 
   exact ⟨hrok, ha'ok, ha'r, hless, kp, ki, kr⟩
 
 /-- Conclusions of the loop lemma for a run that stayed live. -/
-def LoopPost (g : Game P) (ex : Explore) (p : P) (n : Nat) (vc : P → Score)
+def LoopPost (g : Game P) (ex : P → Explore) (p : P) (n : Nat) (vc : P → Score)
     (pathc : P → Score → List Move → Prop) (b : Score) (l : List Move) (a : Score) (pv : List Move) (hl : Bool)
     (res : Score × List Move × Bool × Bool × SState) : Prop :=
   okN (n + 1) res.1 ∧ rank a ≤ rank res.1 ∧ res.2.2.1 = (hl || legalAny g p l) ∧
@@ -134,11 +134,11 @@ def LoopPost (g : Game P) (ex : Explore) (p : P) (n : Nat) (vc : P → Score)
   (rank b ≤ rank a → rank b ≠ -1099511627776 → rank res.1 ≤ maxR (rank a) (kidsR g ex p vc l)) ∧
   (res.2.2.2.1 = false → rank res.1 < rank b ∨ res.1 = a) ∧
   ((res.2.1 = pv ∧ res.1 = a) ∨
-    ∃ m c s rem, res.2.1 = m :: rem ∧ m ∈ l ∧ g.push p m = some c ∧ ex.pick m = true ∧ pathc c s rem ∧
+    ∃ m c s rem, res.2.1 = m :: rem ∧ m ∈ l ∧ g.push p m = some c ∧ (ex p).pick m = true ∧ pathc c s rem ∧
       okN n s ∧ res.1 = lift s ∧ rank a < rank res.1 ∧ rank res.1 ≤ rank (lift (vc c)))
 
 section post
-variable {g : Game P} {ex : Explore} {p : P} {n : Nat} {vc : P → Score}
+variable {g : Game P} {ex : P → Explore} {p : P} {n : Nat} {vc : P → Score}
   {pathc : P → Score → List Move → Prop} {b : Score}
 
 theorem LoopPost.nil {a : Score} {pv : List Move} {hl : Bool} {st : SState} (ha : okN (n + 1) a) :
@@ -163,7 +163,7 @@ theorem LoopPost.cons_none {m : Move} {rest : List Move} {a : Score} {pv : List 
   · right; exact ⟨m', c, s, rem, e1, List.mem_cons_of_mem _ e2, e3⟩
 
 theorem LoopPost.cons_skip {m : Move} {rest : List Move} {a : Score} {pv : List Move} {hl : Bool} {c : P}
-    {res : Score × List Move × Bool × Bool × SState} (hpush : g.push p m = some c) (hp : ex.pick m = false)
+    {res : Score × List Move × Bool × Bool × SState} (hpush : g.push p m = some c) (hp : (ex p).pick m = false)
     (h : LoopPost g ex p n vc pathc b rest a pv true res) :
     LoopPost g ex p n vc pathc b (m :: rest) a pv hl res := by
   obtain ⟨h1, h2, h3, h4, h5, h6, h7⟩ := h
@@ -175,7 +175,7 @@ theorem LoopPost.cons_skip {m : Move} {rest : List Move} {a : Score} {pv : List 
   · right; exact ⟨m', c', s, rem, e1, List.mem_cons_of_mem _ e2, e3⟩
 
 theorem LoopPost.skip_cut {m : Move} {rest : List Move} {a : Score} {pv : List Move} {hl : Bool} {c : P}
-    {st : SState} (hpush : g.push p m = some c) (hp : ex.pick m = false) (ha : okN (n + 1) a)
+    {st : SState} (hpush : g.push p m = some c) (hp : (ex p).pick m = false) (ha : okN (n + 1) a)
     (hba : rank b ≤ rank a) :
     LoopPost g ex p n vc pathc b (m :: rest) a pv hl (a, pv, true, true, st) := by
   have hM := maxR_ge (kidsR g ex p vc rest) (rank a)
@@ -187,7 +187,7 @@ theorem LoopPost.skip_cut {m : Move} {rest : List Move} {a : Score} {pv : List M
   · intro h; simp at h
 
 theorem LoopPost.pick_cut {m : Move} {rest : List Move} {a : Score} {pv : List Move} {hl : Bool} {c : P}
-    {st : SState} {r1 : Score} {rem1 : List Move} (hpush : g.push p m = some c) (hp : ex.pick m = true)
+    {st : SState} {r1 : Score} {rem1 : List Move} (hpush : g.push p m = some c) (hp : (ex p).pick m = true)
     (S : StepFacts n vc c a b r1) (hpath : pathc c r1 rem1)
     (hba : rank b ≤ rank (if a.less (lift r1) then lift r1 else a)) :
     LoopPost g ex p n vc pathc b (m :: rest) a pv hl
@@ -221,7 +221,7 @@ theorem LoopPost.pick_cut {m : Move} {rest : List Move} {a : Score} {pv : List M
 
 theorem LoopPost.pick_cont {m : Move} {rest : List Move} {a : Score} {pv : List Move} {hl : Bool} {c : P}
     {r1 : Score} {rem1 : List Move} {res : Score × List Move × Bool × Bool × SState}
-    (hpush : g.push p m = some c) (hp : ex.pick m = true)
+    (hpush : g.push p m = some c) (hp : (ex p).pick m = true)
     (S : StepFacts n vc c a b r1) (hpath : pathc c r1 rem1)
     (hnb : rank (if a.less (lift r1) then lift r1 else a) < rank b)
     (h : LoopPost g ex p n vc pathc b rest (if a.less (lift r1) then lift r1 else a)
@@ -257,10 +257,10 @@ theorem LoopPost.pick_cont {m : Move} {rest : List Move} {a : Score} {pv : List 
 end post
 
 /-- Loop invariant of `abLoop` with a table invariant and cancellation, for an arbitrary move list. -/
-theorem abLoop_tt {g : Game P} {ex : Explore} {rec} {p : P} {Inv : TTState → Prop} {D : P → Prop} {n : Nat}
+theorem abLoop_tt {g : Game P} {ex : P → Explore} {rec} {p : P} {Inv : TTState → Prop} {D : P → Prop} {n : Nat}
     {vc : P → Score}
     {pathc : P → Score → List Move → Prop} (H : RecTT Inv D n vc pathc rec) (hn : n ≤ 126) {b : Score} :
-    ∀ (l : List Move), (∀ m ∈ l, ∀ c, g.push p m = some c → ex.pick m = true → D c) →
+    ∀ (l : List Move), (∀ m ∈ l, ∀ c, g.push p m = some c → (ex p).pick m = true → D c) →
     ∀ (a : Score) (pv : List Move) (hl : Bool) (st : SState), Inv st.tt →
     (Live st → okN (n + 1) a ∧ okN (n + 1) b) →
     ∀ res, abLoop g ex rec p b l a pv hl st = res →
@@ -282,7 +282,7 @@ theorem abLoop_tt {g : Game P} {ex : Explore} {rec} {p : P} {Inv : TTState → P
       obtain ⟨h1, h2, h3⟩ := ih a pv hl st hinv hab res hres
       exact ⟨h1, h2, fun hlive => (h3 hlive).cons_none hpush⟩
     | some c =>
-      cases hp : ex.pick m with
+      cases hp : (ex p).pick m with
       | false =>
         rw [abLoop_skip hpush hp] at hres
         by_cases hcut : cutoff a b = true
